@@ -573,13 +573,13 @@ fn main() {
 
     corpus(&mut o, seeds);
     boundary_plans(&mut o, thorough, seeds);
-    let n_struct = a.budget(2600, 120_000);
+    let n_struct = a.budget(2600, 24_000);
     for _ in 0..n_struct {
         let p = rand_plan(&mut r, false);
         plan_case(&mut o, &p, seeds);
     }
     // adversarial / malformed stream: extreme fees and buffers, hostile oracles
-    let n_adv = a.budget(1200, 60_000);
+    let n_adv = a.budget(1200, 12_000);
     for _ in 0..n_adv {
         let mut p = rand_plan(&mut r, true);
         if r.chance(1, 4) {
@@ -587,8 +587,8 @@ fn main() {
         }
         plan_case(&mut o, &p, seeds);
     }
-    l125_cases(&mut o, &mut r, a.budget(500, 20_000));
-    canon_cases(&mut o, &mut r, a.budget(300, 10_000));
+    l125_cases(&mut o, &mut r, a.budget(500, 6_000));
+    canon_cases(&mut o, &mut r, a.budget(300, 3_000));
     stored_cases(&mut o, &mut r, a.budget(100, 2_000));
 
     let body: Vec<String> = o.stats.iter().map(|(k, v)| format!("\"{}\":{}", k, v)).collect();
